@@ -34,7 +34,15 @@ func (w *Worker) wakeAll() {
 }
 
 // wakeBlocked is called when no goroutine is runnable: nothing can make progress.
-func (w *Worker) wakeBlocked() bool { return false }
+func (w *Worker) wakeBlocked() bool {
+	for _, g := range w.st.gs {
+		if g.status == gBlocked && g.waitOn == "quiesce" {
+			g.status = gRunnable
+			return true
+		}
+	}
+	return false
+}
 
 // partnerRecv finds a goroutine blocked in a plain receive on channel o.
 func (w *Worker) findBlocked(o *Obj, wantRecv bool, self *G) (*G, ssa.Instruction) {
